@@ -19,6 +19,7 @@ import (
 	"github.com/google/uuid"
 	"runtime"
 	"strconv"
+	"strings"
 	"sync"
 	"time"
 
@@ -886,6 +887,235 @@ func runWrap(c caseIn) *caseOut {
 				return out
 			}
 		}
+	}
+	return out
+}
+
+// runStress: many concurrent callers of ONE IDManager (one generator instance per id kind) on one store, free-running.
+// Everything a generator does besides its storage calls (building the marker key, ...) must be safe for concurrent callers too:
+// afterwards every id handed out is distinct, every one of them is marked (clause 2: held => marked) and the store holds
+// exactly one marker per id (clause 3).
+func runStress(c caseIn) *caseOut {
+	out := &caseOut{PropOK: true, Sched: []int{}, Markers: []int{}, Threads: []thrOut{}}
+	ctx, cancel := context.WithCancel(context.Background())
+	defer cancel()
+	st := &keyRec{Storage: memory.New(ctx), keys: map[string]bool{}}
+	mgr := idgen.NewIDManager(st, ctx)
+	workers, per := 16, c.N
+	if per < 1 {
+		per = 500
+	}
+	type kind struct {
+		name string
+		gen  func() (string, error)
+		used func(string) (bool, error)
+	}
+	var mu sync.Mutex
+	clientOf := map[string]int64{}
+	kinds := []kind{
+		{"client", func() (string, error) {
+			v, err := mgr.GenerateClientID()
+			s := fmt.Sprint(v)
+			mu.Lock()
+			clientOf[s] = v
+			mu.Unlock()
+			return s, err
+		}, func(s string) (bool, error) { return mgr.IsClientIDUsed(clientOf[s]) }},
+		{"user", mgr.GenerateUserID, mgr.IsUserIDUsed},
+		{"port-mapping", mgr.GeneratePortMappingID, mgr.IsPortMappingIDUsed},
+	}
+	for _, k := range kinds {
+		st.mu.Lock()
+		base := len(st.keys)
+		st.mu.Unlock()
+		ids := make([][]string, workers)
+		errs := make([]error, workers)
+		start := make(chan struct{})
+		var wg sync.WaitGroup
+		for w := 0; w < workers; w++ {
+			wg.Add(1)
+			go func(w int) {
+				defer wg.Done()
+				<-start
+				for i := 0; i < per; i++ {
+					id, err := k.gen()
+					if err != nil {
+						errs[w] = err
+						return
+					}
+					ids[w] = append(ids[w], id)
+				}
+			}(w)
+		}
+		close(start)
+		wg.Wait()
+		seen := map[string]bool{}
+		total := 0
+		for w := range ids {
+			if errs[w] != nil {
+				out.PropOK, out.PropMsg = false, fmt.Sprintf("%s ids: a concurrent generation failed on an almost empty store: %v", k.name, errs[w])
+				return out
+			}
+			for _, id := range ids[w] {
+				if seen[id] {
+					out.PropOK, out.PropMsg = false, fmt.Sprintf("%s id %s was handed out twice to %d concurrent callers of one generator", k.name, id, workers)
+					return out
+				}
+				seen[id] = true
+				total++
+			}
+		}
+		unmarked := 0
+		first := ""
+		for id := range seen {
+			if u, err := k.used(id); err != nil || !u {
+				unmarked++
+				if first == "" {
+					first = id
+				}
+			}
+		}
+		st.mu.Lock()
+		nk := len(st.keys) - base
+		st.mu.Unlock()
+		if unmarked > 0 || nk != total {
+			out.PropOK = false
+			out.PropMsg = fmt.Sprintf("%s ids: %d concurrent callers of one generator were handed %d ids, %d of them are NOT marked as used (e.g. %s) and the store holds %d markers: an id a caller holds is not protected, another caller can be given it", k.name, workers, total, unmarked, first, nk)
+			return out
+		}
+	}
+	return out
+}
+
+// hookShared: a shared cache tier WITH set-if-absent; the first Exists on a marker key runs `hook` after it has answered
+// (the window between a check and a write, were a node to take a marker by check-then-write on the shared tier)
+type hookShared struct {
+	*memory.Storage
+	mu    sync.Mutex
+	armed bool
+	hook  func()
+	calls []string
+}
+
+func (h *hookShared) note(op, key string) {
+	if strings.HasPrefix(key, "tunnox:id:used:") {
+		h.mu.Lock()
+		h.calls = append(h.calls, op)
+		h.mu.Unlock()
+	}
+}
+func (h *hookShared) Exists(key string) (bool, error) {
+	ok, err := h.Storage.Exists(key)
+	h.note("Exists", key)
+	h.mu.Lock()
+	fire := h.armed && strings.HasPrefix(key, "tunnox:id:used:")
+	if fire {
+		h.armed = false
+	}
+	h.mu.Unlock()
+	if fire {
+		h.hook()
+	}
+	return ok, err
+}
+func (h *hookShared) SetNX(key string, value any, ttl time.Duration) (bool, error) {
+	h.note("SetNX", key)
+	return h.Storage.SetNX(key, value, ttl)
+}
+
+// runHybrid2: TWO nodes, each with its own hybrid.Storage (private local cache) over ONE shared cache tier that offers atomic
+// set-if-absent.  Both draw the same candidate.  Node B's whole generation is run inside node A's first existence check of the
+// marker on the shared tier, should A make one: the per-key lock of a hybrid instance is per node, so only the shared tier's
+// atomic set-if-absent can arbitrate between nodes.  At most one node may be handed the candidate.
+func runHybrid2(c caseIn) *caseOut {
+	out := &caseOut{PropOK: true, Sched: []int{}, Markers: []int{}, Threads: []thrOut{}}
+	ctx, cancel := context.WithCancel(context.Background())
+	defer cancel()
+	shared := &hookShared{Storage: memory.New(ctx)}
+	nodeA := hybrid.NewWithSharedCache(ctx, memory.New(ctx), shared, nil, nil)
+	nodeB := hybrid.NewWithSharedCache(ctx, memory.New(ctx), shared, nil, nil)
+	savedEntropy := crand.Reader
+	crand.Reader = constEntropy{}
+	defer func() { crand.Reader = savedEntropy }()
+	mk := func(st storage.Storage) func() (string, error) {
+		switch c.Kind {
+		case 1:
+			g := idgen.NewStorageIDGenerator[string](st, "pmap_", "tunnox:id:used:pmap", ctx)
+			return g.Generate
+		default:
+			g := idgen.NewStorageIDGenerator[int64](st, "", "tunnox:id:used:client", ctx)
+			return func() (string, error) { v, err := g.Generate(); return fmt.Sprint(v), err }
+		}
+	}
+	genA, genB := mk(nodeA), mk(nodeB)
+	var idB string
+	var errB error
+	ranB := false
+	shared.hook = func() { ranB = true; idB, errB = genB() }
+	shared.armed = true
+	idA, errA := genA()
+	if !ranB {
+		idB, errB = genB()
+	}
+	out.NodeIDs = []string{fmt.Sprintf("A:%s(%v)", idA, errA), fmt.Sprintf("B:%s(%v)", idB, errB), fmt.Sprintf("B-inside-A's-check:%v", ranB)}
+	if errA == nil && errB == nil && idA == idB {
+		out.PropOK = false
+		out.PropMsg = fmt.Sprintf("two nodes (two hybrid stores over one shared cache WITH set-if-absent) were both handed id %s: node B generated inside node A's existence check of the marker on the shared tier (shared-tier calls on marker keys: %v)", idA, shared.calls)
+	}
+	return out
+}
+
+// runUniqWrap: the GenerateUnique* wrappers with a scripted "already exists in the repository" check: a candidate the check
+// reports as taken is never handed out, and its marker is released again
+func runUniqWrap(c caseIn) *caseOut {
+	out := &caseOut{PropOK: true, Sched: []int{}, Markers: []int{}, Threads: []thrOut{}}
+	ctx, cancel := context.WithCancel(context.Background())
+	defer cancel()
+	st := &keyRec{Storage: memory.New(ctx), keys: map[string]bool{}}
+	mgr := idgen.NewIDManager(st, ctx)
+	taken := c.N // the first N candidates are reported as existing
+	type w struct {
+		name string
+		run  func(check func(string) (bool, error)) (string, error)
+	}
+	ws := []w{
+		{"GenerateUniqueClientID", func(ck func(string) (bool, error)) (string, error) {
+			v, err := mgr.GenerateUniqueClientID(func(x int64) (bool, error) { return ck(fmt.Sprint(x)) })
+			return fmt.Sprint(v), err
+		}},
+		{"GenerateUniquePortMappingID", mgr.GenerateUniquePortMappingID},
+		{"GenerateUniqueNodeID", mgr.GenerateUniqueNodeID},
+	}
+	for _, x := range ws {
+		st.mu.Lock()
+		base := len(st.keys)
+		st.mu.Unlock()
+		var refused []string
+		id, err := x.run(func(cand string) (bool, error) {
+			if len(refused) < taken {
+				refused = append(refused, cand)
+				return true, nil
+			}
+			return false, nil
+		})
+		if err != nil {
+			out.PropOK, out.PropMsg = false, fmt.Sprintf("%s failed although only %d candidates were reported as taken: %v", x.name, taken, err)
+			return out
+		}
+		for _, r := range refused {
+			if r == id {
+				out.PropOK, out.PropMsg = false, fmt.Sprintf("%s handed out %s although the existence check reported exactly this candidate as already taken", x.name, id)
+				return out
+			}
+		}
+		st.mu.Lock()
+		nk := len(st.keys) - base
+		st.mu.Unlock()
+		if nk != 1 {
+			out.PropOK, out.PropMsg = false, fmt.Sprintf("%s: one id handed out after %d refused candidates, but the store holds %d new markers (refused candidates must be released)", x.name, len(refused), nk)
+			return out
+		}
+		out.NodeIDs = append(out.NodeIDs, x.name+":"+id)
 	}
 	return out
 }
